@@ -39,6 +39,44 @@ Inductive segs : list lexitem -> list pnode -> Prop :=
     stmt_node u n1 -> stmt_node u n2 -> expansion_pair n1 n2 -> segs rest ns ->
     segs (d ++ map LTok u ++ rest) (n1 :: n2 :: ns).
 
+(* ---- instruction statements are tight ---------------------------------------------------- *)
+(* An INSTRUCTION statement consumes nothing but its mnemonic and its operands: no newline, no comment.
+   (A data directive legitimately consumes newlines: `.word 1` <newline> `2`.) *)
+Definition is_comment_tok (t : token) : bool := match tt t with TComment _ => true | _ => false end.
+Definition operand_tok (t : token) : Prop := is_newline_tok t = false /\ is_comment_tok t = false.
+
+Definition is_instruction_node (n : pnode) : bool :=
+  match n with
+  | PProgramEntry _ _ | PFuncEntry _ _ _ | PLabel _ _ | PDirective _ _ _ => false
+  | _ => true
+  end.
+
+(* the token of the instruction field of an instruction node: the mnemonic as written (for a
+   pseudo-instruction or an expansion, the mnemonic of the statement the node comes from) *)
+Definition mnemonic_tok (n : pnode) : option token :=
+  match n with
+  | PArith i _ _ _ _ | PIArith i _ _ _ _ | PJumpLink i _ _ _ | PJumpLinkR i _ _ _ _ | PBasic i _
+  | PBranch i _ _ _ _ | PStore i _ _ _ _ | PLoad i _ _ _ _ | PLoadAddr i _ _ _ | PCsr i _ _ _ _
+  | PCsrI i _ _ _ _ => Some (wt i)
+  | PProgramEntry _ _ | PFuncEntry _ _ _ | PLabel _ _ | PDirective _ _ _ => None
+  end.
+
+(* [u] are the tokens the statement of the instruction node [n] consumed: the first is the mnemonic, and
+   all of them are operand tokens; hence (with [stmt_node u n]) the raw range of [n] runs exactly from the
+   mnemonic through the last operand.  Nothing is claimed of the other nodes. *)
+Definition stmt_tight (u : list token) (n : pnode) : Prop :=
+  is_instruction_node n = true ->
+  match u with tf :: _ => mnemonic_tok n = Some tf | [] => False end /\ Forall operand_tok u.
+
+(* [segs] with the tightness of every instruction statement *)
+Inductive segs_tight : list lexitem -> list pnode -> Prop :=
+| segst_nil l : segs_tight l []
+| segst_one d u rest n ns :
+    stmt_node u n -> stmt_tight u n -> segs_tight rest ns -> segs_tight (d ++ map LTok u ++ rest) (n :: ns)
+| segst_two d u rest n1 n2 ns :
+    stmt_node u n1 -> stmt_node u n2 -> expansion_pair n1 n2 -> stmt_tight u n1 -> stmt_tight u n2 ->
+    segs_tight rest ns -> segs_tight (d ++ map LTok u ++ rest) (n1 :: n2 :: ns).
+
 (* ---- parse errors ------------------------------------------------------------------------ *)
 (* the lexer item a parse error is about: the offending token, or the item the lexer itself rejected *)
 Definition err_item (e : parse_error) (it : lexitem) : Prop :=
